@@ -7,7 +7,7 @@ ID = "C12"
 LEVEL = "model_checking"
 RULE = ("SequOOL x {Binary 1-D, Kary(3) 1-D, DimensionBinary 2-D} x budgets n: every reward sequence in {0,1}^T / {0,1,-1}^T over the "
         "whole schedule plus a tail for n in {10,11,12} (E-full), and every script within k deviations of base scripts over the whole "
-        "schedule plus 3 tail rounds for n in 10..40 and 100 (E-dev; the quick tier takes a VERIF_SEED-rotated subset of n).  Every "
+        "schedule plus 3 tail rounds for n in 10..40 and 100 (E-dev; the quick tier takes a VERIF_SEED-rotated subset of n), plus E-sched: the whole schedule for every budget n in 41..800 (thorough: 2000; quick: every second n) on one reward script.  Every "
         "make_children call is an opening judged against the published schedule (root first, non-decreasing depth, floor(h_max/h) per "
         "depth, none beyond h_max, best unopened cell of the depth, children handed out once each in order, centre after exhaustion, "
         "recommendation unchanged).  distinct_nontrivial = executions reaching depth >= 2.")
@@ -45,7 +45,35 @@ def tasks(tier, seed):
                 ts.append({"kind": "algo", "label": "dev/%s/n%d/%s" % (part, n, base), "cfg": cfg, "mode": "dev", "T": L + 3,
                            "R": list(configs.R3), "base": base, "k": 1 if tier == "quick" else 2,
                            "max_exec": 3000 if tier == "quick" else 40000, "cost": 3 + L // 20})
+    # E-sched: every budget n in a range, whole schedule + 3 rounds, two reward scripts (the schedule's shape is
+    # reward-independent; rounding of h_max/h only shows for particular n)
+    hi = 800 if tier == "quick" else 2000
+    chunk = 40
+    for lo in range(41, hi + 1, chunk):
+        ns = [n for n in range(lo, min(lo + chunk, hi + 1)) if tier == "thorough" or (n + seed) % 2 == 0]
+        ts.append({"kind": "sched", "label": "sched/%d" % lo, "ns": ns, "cost": 3 + lo // 20})
     return ts
+
+
+def _sched_task(task):
+    import time as _t
+    from ..world import Stats
+
+    st = Stats()
+    for n in task["ns"]:
+        if task.get("deadline_abs") and _t.time() > task["deadline_abs"]:
+            st.exhaustive = False
+            st.caps.append({"task": task["label"], "cap": "wall-clock budget", "first_n_not_run": n})
+            break
+        cfg = configs.cfg("SequOOL", "Binary", None, configs.BOXES["u1"], n=n)
+        L = schedule_len(n, 2)
+        for base in ("twopeak",):
+            t = {"cfg": cfg, "mode": "dev", "T": L + 3, "R": [1.0], "base": base, "k": 0, "label": task["label"]}
+            run_algo_task(t, _mk, nontrivial=_nontrivial, stats=st, digest=(n % 25 == 0))
+        st.bump("schedules")
+    for v in st.violations:
+        v["task"] = dict(v["task"], kind="algo")
+    return st
 
 
 def _mk():
@@ -59,6 +87,8 @@ def _nontrivial(ctx):
 
 
 def run_task(task):
+    if task["kind"] == "sched":
+        return _sched_task(task)
     return run_algo_task(task, _mk, nontrivial=_nontrivial)
 
 
